@@ -260,6 +260,16 @@ fn check_cli(c: &Case, ctx: &Ctx) -> Outcome {
         let ox = nk(ctx, &dir, "ox.skf")?;
         model::compare_nk(&xo, &t.merge(&to), k, rc, Some(k_bits_for(k))).map_err(|m| Outcome::Fail(format!("merge x o: {m}")))?;
         model::compare_nk(&ox, &to.merge(&t), k, rc, Some(k_bits_for(k))).map_err(|m| Outcome::Fail(format!("merge o x: {m}")))?;
+        // three files, the outer two sharing k-mers that the middle one lacks: any order gives the model's table
+        let third: Vec<Sample> = vec![("again".to_string(), samples[0].1.clone())];
+        must_ok(&build(ctx, &dir, "z", &third, k, rc, 1), "ska build (third file: the first sample under another name)")?;
+        let (_d3, tz) = model_table(&third, k, rc);
+        for (order, out) in [(["x.skf", "o.skf", "z.skf"], "xoz"), (["z.skf", "o.skf", "x.skf"], "zox"), (["o.skf", "z.skf", "x.skf"], "ozx")] {
+            must_ok(&run_ska(ctx, &dir, &["merge", order[0], order[1], order[2], "-o", out]), &format!("ska merge {order:?}"))?;
+            let tab = |f: &str| match f { "x.skf" => &t, "o.skf" => &to, _ => &tz };
+            let exp = tab(order[0]).merge(tab(order[1])).merge(tab(order[2]));
+            model::compare_nk(&nk(ctx, &dir, &format!("{out}.skf"))?, &exp, k, rc, Some(k_bits_for(k))).map_err(|m| Outcome::Fail(format!("merge {order:?}: {m}")))?;
+        }
         // weed with the first sample's records, then the rewritten file must still be the right width
         cli::write_fasta_auto(&dir.join("w.fa"), &samples[0].1, None);
         must_ok(&run_ska(ctx, &dir, &["weed", "x.skf", "w.fa", "--min-freq", "0", "-o", "xw.skf"]), "ska weed")?;
@@ -408,7 +418,7 @@ fn check_large(c: &LargeCase, ctx: &Ctx) -> Outcome {
     }
 }
 
-const RULE: &str = "generated: every valid k (uniform + weight on 31/33/35/37/63), 1-4 samples; classes: ordinary, every stored k-mer fits 64 bits (k>=35: records A^(k-33+j)+33 random bases, length k..k+3), mixture, emptied table. In-process: build -> MergeSkaArray -> save -> load by the CLI's 64-then-128 dispatch: width used == width written, k/strand/names/rows (harness decoder) and nk text identical; align (generated filters), distance, delete, weed give identical results on the reloaded and the in-memory array. CLI: nk == model incl. k_bits; merge with an ordinary file in both orders, weed, delete, align == model; map of a sample against its own records == map model. Non-trivial: k>=35 file that fits 64 bits, or mixture, or k in {31,33,35}, or empty table.";
+const RULE: &str = "generated: every valid k (uniform + weight on 31/33/35/37/63), 1-4 samples; classes: ordinary, every stored k-mer fits 64 bits (k>=35: records A^(k-33+j)+33 random bases, length k..k+3), mixture, emptied table. In-process: build -> MergeSkaArray -> save -> load by the CLI's 64-then-128 dispatch: width used == width written, k/strand/names/rows (harness decoder) and nk text identical; align (generated filters), distance, delete, weed give identical results on the reloaded and the in-memory array. CLI: nk == model incl. k_bits; merge with an ordinary file in both orders and of three files (the outer two sharing k-mers the middle one lacks) in three orders, weed, delete, align == model; map of a sample against its own records == map model. Non-trivial: k>=35 file that fits 64 bits, or mixture, or k in {31,33,35}, or empty table.";
 
 fn show(c: &Case) -> serde_json::Value {
     let s = materialise(c);
